@@ -53,8 +53,8 @@ func genTwinnyWords(r *Rng) []string {
 func init() {
 	register(&CheckDef{
 		ID: "C08", Level: "exploration",
-		Technique: "deterministic simulation of map-iteration order and construction history: repeated NewWordList constructions from permuted/duplicated inputs under simulator-chosen visit orders (hook H4) and native orders, Entropy() compared with the statement's formula and bit-for-bit across constructions",
-		Rule:      "case = one Entropy() call on one construction of one input under one visit order, scheme and separator; distinct by hash of (input multiset, visit order, scheme, separator); non-trivial = the list contains a word together with its title-cased twin or a word that title-casing does not change",
+		Technique:   "deterministic simulation of map-iteration order and construction history: repeated NewWordList constructions from permuted/duplicated inputs under simulator-chosen visit orders (hook H4) and native orders, Entropy() compared with the statement's formula and bit-for-bit across constructions",
+		Rule:        "case = one Entropy() call on one construction of one input under one visit order, scheme and separator; distinct by hash of (input multiset, visit order, scheme, separator); non-trivial = the list contains a word together with its title-cased twin or a word that title-casing does not change",
 		Assumptions: []string{"title-casing is strings.Title", "separator entropy is what the separator function reports; for presets and recipe separators this is log2 of the number of strings the recipe allows", "float32 tolerance max(1e-4, 4 ulp) against the formula; bit-identity across constructions of the same input"},
 		Episodes:    map[string]int{"quick": 4000, "thorough": 120000},
 		TwiceEvery:  0,
@@ -130,8 +130,8 @@ func init() {
 	})
 	register(&CheckDef{
 		ID: "C10", Level: "exploration",
-		Technique: "deterministic simulation of map-iteration order and construction history: repeated NewWordList constructions from permuted/duplicated inputs under simulator-chosen visit and index orders; the kept set is read out through the public API by forcing every index on the scripted tape and compared with the reference normalisation",
-		Rule:      "case = one construction (input order and multiplicity, visit order, index order) whose size and complete kept set are compared with the model; distinct by hash of (input sequence, visit order); non-trivial = the input has a duplicate, a title-cased twin, or a word title-casing does not change",
+		Technique:   "deterministic simulation of map-iteration order and construction history: repeated NewWordList constructions from permuted/duplicated inputs under simulator-chosen visit and index orders; the kept set is read out through the public API by forcing every index on the scripted tape and compared with the reference normalisation",
+		Rule:        "case = one construction (input order and multiplicity, visit order, index order) whose size and complete kept set are compared with the model; distinct by hash of (input sequence, visit order); non-trivial = the input has a duplicate, a title-cased twin, or a word title-casing does not change",
 		Assumptions: []string{"title-casing is strings.Title", "the kept set is read out by generating one-word passwords for every index (scripted tape) and cross-checked with the verif-tagged accessor"},
 		Episodes:    map[string]int{"quick": 8000, "thorough": 640000},
 		TwiceEvery:  0,
